@@ -336,6 +336,9 @@ def run_case(ctx, c):
             rig.sdo.download(VAL_OBJ[0], VAL_OBJ[1], fu_data)
     steps = [("upload", lambda: rig.sdo.upload(*FU_UP)),
              ("download", fu_download)]
+    if kind.startswith("blk") and rig.peer == "ref":
+        # ... and a block upload on the same client (checksum state, sequence counters left behind by the disturbed one)
+        steps.append(("block-upload", lambda: do_transfer(rig, "blk_ul", list(FU_UP), None)))
     if c["seed"] % 2:
         steps.reverse()                      # an upload in between can hide state left behind in the server
     if upload:
@@ -349,6 +352,10 @@ def run_case(ctx, c):
             if name == "poll-same-object" and res != poll_val:
                 ctx.violation(f"followup-stale-data:{kind}:{dist.split(':')[0]}",
                               f"polling the same object after ({kind}, {dist}@{k}, outcome {outcome}) returned {res!r}, the server now holds {poll_val!r}",
+                              c, [x.brief() for x in list(rig.bus.log)[max(0, mark - 12):][:50]])
+            if name == "block-upload" and res != fu_val:
+                ctx.violation(f"followup-wrong-data:{name}:{kind}:{dist.split(':')[0]}",
+                              f"follow-up block upload after ({kind}, {dist}@{k}, outcome {outcome}) returned {res!r} expected {fu_val!r}",
                               c, [x.brief() for x in list(rig.bus.log)[max(0, mark - 12):][:50]])
             if name == "upload" and res != fu_val:
                 ctx.violation(f"followup-wrong-data:{name}:{kind}:{dist.split(':')[0]}",
